@@ -439,7 +439,7 @@ func c16Shape(x *X) {
 		s.rt.up[init[down]] = true
 		s.tick(2)
 	}
-	from := len(s.rt.routed)
+	from, from2 := len(s.rt.routed), 0
 	ncalls := 2*len(init) + 1
 	if sched == rpc.RandomScheduling {
 		ncalls = 3 // (every random pick is a choice of the explorer)
@@ -458,6 +458,21 @@ func c16Shape(x *X) {
 		}
 		if i == len(init) {
 			s.tick(1)
+			from2 = len(s.rt.routed)
+		}
+	}
+	if n := len(cur); sched == rpc.RoundRobinScheduling && n >= 2 && from2 > 0 {
+		// the live set has been stable since the last tick: a duplicate in the argument list must not give a
+		// target two turns of the rotation
+		var seq []string
+		for _, r := range s.rt.userRoutes(from2) {
+			seq = append(seq, r.addr)
+		}
+		for i := 0; i+n <= len(seq); i++ {
+			if len(dedup(seq[i:i+n])) != n {
+				x.Fail("C16/duplicate-target-not-ignored/shapes", "client of %v: after Update(%q) - %d distinct targets, all reachable - round robin sent the consecutive calls %v (a target has more than one turn of the rotation)", init, shape, n, seq)
+				break
+			}
 		}
 	}
 	for _, r := range s.rt.userRoutes(from) {
